@@ -456,6 +456,38 @@ def _wrapper_cases(ctx, broken):
         broken.append(Broken("correspondence", "c20.patch", "after patch_pypdf_fallback_aes() pypdf's modules do not all point at the library's AES functions / CryptAES"))
         return [], []
     reqs, impls = [], []
+    # the IV of every encryption is one draw of secrets.token_bytes(16) made BY THAT CALL: the module's `secrets` is
+    # observed (counting draws, handing out recognisable values) for a few calls; the model takes the IV as a parameter
+    import types
+    A = importlib.import_module("sharepoint2text.parsing.extractors.pdf._pypdf_aes_fallback")
+    real_secrets = A.secrets
+    draws = []
+
+    def _tb(n=None):
+        v = bytes([0xD0 + (len(draws) % 16)] * 15 + [len(draws) % 256])[: (16 if n is None else n)]
+        draws.append(v)
+        return v
+    A.secrets = types.SimpleNamespace(token_bytes=_tb)
+    try:
+        for j in range(4):
+            key = bytes(_rb(rng, rng.choice((16, 24, 32))))
+            before = len(draws)
+            try:
+                e = cls(key).encrypt(b"iv-draw-%d" % j)
+            except Exception as ex:  # noqa: BLE001
+                broken.append(Broken("correspondence", "c20.crypt.iv-draw", f"encrypt raised {type(ex).__name__} under the observed secrets module"))
+                break
+            ctx.case(("c20.iv-draw", j))
+            ctx.count("crypt/iv-draw")
+            if len(draws) != before + 1 or bytes(e[:16]) != draws[-1]:
+                broken.append(Broken("correspondence", "c20.crypt.iv-draw",
+                                     f"encryption {j}: {len(draws) - before} draws of secrets.token_bytes during the call, prepended IV "
+                                     f"{_hx(e[:16])}, last draw {_hx(draws[-1]) if draws else None} (model: the IV is the one draw of this call)",
+                                     case={"op": "c20.crypt", "enc": True, "key": list(key), "iv": list(e[:16]), "data": list(b"iv-draw")}))
+                break
+    finally:
+        A.secrets = real_secrets
+    seen_ivs = {}
     lens = list(range(0, ctx.n(65, 201))) + [rng.randrange(200, 600) for _ in range(ctx.n(3, 40))]
     msgs = [bytes(_pattern(rng, n)) for n in lens] + [bytes(_padlike(rng, n, k)) for n in range(1, ctx.n(34, 70)) for k in (1, 3)]
     for m in msgs:
@@ -468,6 +500,12 @@ def _wrapper_cases(ctx, broken):
         except Exception as ex:  # noqa: BLE001
             eo, e = {"err": type(ex).__name__}, None
         iv = list(e[:16]) if e is not None else [0] * 16
+        if e is not None:
+            if bytes(e[:16]) in seen_ivs and not any(b.name == "c20.crypt.iv-repeat" for b in broken):
+                broken.append(Broken("correspondence", "c20.crypt.iv-repeat",
+                                     f"encryptions {seen_ivs[bytes(e[:16])]} and {len(seen_ivs)} of this run prepend the same IV {_hx(e[:16])}",
+                                     case={"op": "c20.crypt", "enc": True, "key": list(key), "iv": iv, "data": list(m)}))
+            seen_ivs.setdefault(bytes(e[:16]), len(seen_ivs))
         reqs.append({"op": "c20.crypt", "enc": True, "key": list(key), "iv": iv, "data": list(m)})
         impls.append((f"crypt/encrypt", eo))
         if e is not None:
